@@ -424,10 +424,11 @@ class ErrorRanges:
         self._lengths = self._compute_lengths()
 
     def _compute_lengths(self) -> List[int]:
-        lengths = [
-            int(errors / self.error_rate) - 1
-            for errors in range(1, int(self.error_rate * self.length) + 1)
-        ]
+        # Use the same expression as the aligner for the number of allowed errors
+        lengths = []
+        for length in range(1, self.length + 1):
+            if int(length * self.error_rate) > len(lengths):
+                lengths.append(length - 1)
         if not lengths or lengths[-1] < self.length:
             lengths.append(self.length)
         return lengths
